@@ -329,10 +329,15 @@ func runComp(emit func(string), cfgTok, script string) {
 					err = fmt.Errorf("panic: %v", r)
 				}
 			}()
+			// every operation is submitted the way an API request does it: with a request-scoped context
+			// that is cancelled as soon as the call has returned (round 8: accepted => committed whatever
+			// happens to the caller's context afterwards; the state layer ignores the context)
+			rctx, rcancel := context.WithCancel(ctx)
+			defer rcancel()
 			if isPin {
-				err = p.cc.LogPin(ctx, pin)
+				err = p.cc.LogPin(rctx, pin)
 			} else {
-				err = p.cc.LogUnpin(ctx, pin)
+				err = p.cc.LogUnpin(rctx, pin)
 			}
 		}()
 		switch {
